@@ -632,7 +632,11 @@ class FLock:
                 return False
             self.held = True
             return True
-        K.block(lambda: not self.held, None, "lock.acq")
+        # block() is a scheduling point even when the lock is free, so several threads can be past their check at once: the lock
+        # is taken only by the one that still finds it free when it runs again (nothing is scheduled between block()'s return
+        # value and the assignment)
+        while not K.block(lambda: not self.held, None, "lock.acq"):
+            pass
         self.held = True
         return True
 
